@@ -326,11 +326,13 @@ class SchemaBuilder(
         }
         result = []
         if discriminator_parent := get_discriminated_parent(cls):
-            discriminator_ref = self.ref_schema(
-                get_type_name(discriminator_parent).json_schema
-            )
-            assert discriminator_ref is not None
-            result.append(discriminator_ref)
+            # the parent itself must not reference its own definition
+            if discriminator_parent is not cls:
+                discriminator_ref = self.ref_schema(
+                    get_type_name(discriminator_parent).json_schema
+                )
+                assert discriminator_ref is not None
+                result.append(discriminator_ref)
             additional_properties = True
         result.append(
             json_schema(
